@@ -192,9 +192,17 @@ def colon_branches():
                  c_switch(b"wip"), c_log(10), c_branch_delete(b"wip: x"), c_branch_list()]
 
 
+def removed_directory_and_dot():
+    return ID + [W(b"d/x", b"1"), W(b"d/e/y", b"2"), W(b"d-old", b"3"), W(b"ad/x", b"4"), W(b"a", b"5"), c_add([b"."]), c_commit(b"c"),
+                 Edit("rmtree", b"d"), c_add([b"d"]), c_ls_files(False), c_status(), c_restore([b"."], staged=True), c_ls_files(True),
+                 c_rm([b"d-old", b"ad"]), W(b"n", b"n"), c_add([b"n"]), c_restore([b"."], staged=True), c_ls_files(True), c_status(),
+                 c_restore([b"."]), c_status(), Edit("rmtree", b"d"), c_add([b"d/e"]), c_add([b"d", b"d/x"]), c_ls_files(False)]
+
+
 ORACLE_ONLY = {"newline-names"}
 
 DIRECTED = [
+    (("C04", "C06", "C09"), "removed-directory-and-dot", removed_directory_and_dot, "F47/F48: add of a tracked directory removed from disk; restore --staged . after entries of HEAD were unstaged"),
     (("C18", "C08", "C03", "C11"), "reset-after-rename", reset_after_rename, "every reflog position after branch --rename (which journals a record without a commit id), in every mode"),
     (("C14", "C10", "C03"), "colon-branches", colon_branches, "a branch whose name contains ': ' beside a branch named by the part before it"),
     (("C06", "C09"), "deep-directories", deep_directories, "directory arguments with two and more slashes for restore --staged, restore, rm, add"),
